@@ -171,6 +171,7 @@ async def history_registries(ctx, workdir: str, version: str | None, length: int
     gateway, transport = new_gateway(version)
     stepper = Stepper(gateway, transport)
     gen = histories.HistoryGen(rng, version)
+    gen.wide = seed_tag % 2 == 1
     lines = []
     for i in range(length):
         line = gen.rx_line()
@@ -255,6 +256,19 @@ def constructed(rng):
     return nodes
 
 
+def big_registry(rng, n_nodes: int, n_children: int, n_values: int):
+    from aiomysensors.model.node import Child, Node
+
+    nodes = {}
+    for nid in rng.sample(range(0, 256), n_nodes):
+        children = {cid: Child(cid, rng.randint(0, 39), description=f"child {cid} of {nid} " + "d" * rng.randint(0, 40),
+                               values={vt: gens.random_payload(rng) for vt in rng.sample(range(0, 57), n_values)})
+                    for cid in rng.sample(range(0, 255), n_children)}
+        nodes[nid] = Node(nid, rng.choice([17, 18]), "2.3.2", children=children, sketch_name=f"sketch {nid}",
+                          sketch_version="1.0", battery_level=nid % 101, heartbeat=nid * 7, sleeping=bool(nid % 2))
+    return nodes
+
+
 def run_case(ctx, case: dict) -> None:
     workdir = str(scratch_dir("c13"))
     try:
@@ -286,6 +300,11 @@ def run(ctx) -> None:
                 arun(roundtrip(ctx, constructed(rng), workdir, {"kind": "constructed", "index": i}))
             for i in range(ctx.pick(60, 1500) // ctx.shard_count + 3):
                 arun(retry_after_failed_save(ctx, constructed(rng), workdir, i))
+            # scale: whole networks (up to 256 nodes x 40 children x 20 values: files of several MB)
+            sizes = [(256, 3, 2), (40, 40, 5)] + ([(256, 40, 20), (100, 100, 10)] if not ctx.quick else [])
+            for i, (n, c, v) in enumerate(sizes):
+                if ctx.mine(i):
+                    arun(roundtrip(ctx, big_registry(rng, n, c, v), workdir, {"kind": "constructed", "index": f"big-{n}-{c}-{v}"}))
         reach.into(ctx)
     finally:
         shutil.rmtree(workdir, ignore_errors=True)
